@@ -127,6 +127,16 @@ func (h *history) versionedSweep(n int, rowAfter map[string]string) {
 			}
 		}
 		h.steps = append(h.steps, stepObs{kind: "versioned", node: n, cid: b.id, exists: true, deleted: del, vals: vals})
+		// the same time-travel query with a filter the state at that commit satisfies (in the indexed configuration
+		// the filtered field carries a secondary index): still exactly that one row
+		if av, ok := vals["age"].(int64); ok && !del {
+			fq := fmt.Sprintf(`query { User(cid: "%s", docID: "%s", filter: {age: {_eq: %d}}) { age } }`, c, h.docID, av)
+			fd, ferr := x.gql(h.ctx, fq)
+			h.e.Res.Evaluations++
+			if n := len(rowsOf(fd, "User")); ferr != "" || n != 1 {
+				h.e.violate("versioned-filter", fmt.Sprintf("%s (%s collection): at commit #%d the document has age %d; the time-travel query with filter {age: {_eq: %d}} returns %d rows %s", x.name, h.cfg, b.id, av, av, n, ferr), h.replay())
+			}
+		}
 	}
 	// at the current single head: equals the current query
 	hs := sortedKeys(h.reference(n).heads)
